@@ -31,6 +31,6 @@ for pid in props:
             "level_claimed": {"category": "proof", "text": text, "design_ref": ref},
             "level_note": note, "technique": tech})
     else:
-        m["not_applicable"].append({"property_id": pid, "reason": NA.get(pid, "check not built yet (work in progress; see DESIGN.md section 4 for the plan)")})
+        m["not_applicable"].append({"property_id": pid, "reason": NA.get(pid, "no check was built for this property in the available time, so nothing is claimed for it; the technique does apply (planned model, theorems and tie: DESIGN-phase1-plan.md section 4; status: DESIGN.md section 8)")})
 json.dump(m, open(os.path.join(V, "MANIFEST.json"), "w"), indent=1)
 print("MANIFEST: %d checks, %d not_applicable" % (len(m["checks"]), len(m["not_applicable"])))
